@@ -3,9 +3,9 @@
 wt="$1"; k="$2"; d="$wt/seed_out/$k"
 cd "$wt" || exit 2
 git checkout -q -- . || exit 2
-demo_clean=$(/venv/bin/python "$d/demo.py" >/dev/null 2>&1; echo $?)
+demo_clean=$(PYTHONPATH="$wt" /venv/bin/python "$d/demo.py" >/dev/null 2>&1; echo $?)
 git apply "$d/patch.diff" || { echo "{\"apply\": false}" > "$d/verify.json"; exit 1; }
-demo_patched=$(/venv/bin/python "$d/demo.py" >/dev/null 2>&1; echo $?)
+demo_patched=$(PYTHONPATH="$wt" /venv/bin/python "$d/demo.py" >/dev/null 2>&1; echo $?)
 /venv/bin/python -m pytest -q -p no:cacheprovider --timeout=900 -n 4 > "$d/tests.log" 2>&1
 tests=$?
 summary=$(tail -1 "$d/tests.log")
